@@ -11,8 +11,8 @@ func init() {
 	Register(&Property{
 		ID: "C36",
 		Decides: "(R36.1) precedence in rule selection: the rule sets are consulted in the order client id, net, node, suffrage, default map, built-in default; a later set is consulted only on the not-found (or not-configured) path of every earlier one; each answer carries the found set's own rule, checksum and label; the node and suffrage sets are consulted only for a request that names a node; " +
-			"(R36.2) enforcement: an address keeps its limiter while it is used (every request refreshes its last-access time; shrink removes only addresses not accessed since the expiry); limiter and no-limit flag are updated together; Allow is x/time/rate's Limiter.Allow of the limiter the RateLimiter holds, or the no-limit flag when it holds none; the held limiter is built from exactly the (limit, burst) given, no-limit is set only for an infinite limit, and Rule builds / updates the RateLimiter from the selected rule's Limit and Burst.",
-		NotDecided: "the window bound itself (x/time/rate); precedence when a cached limiter of one kind is reused for a later request of the same address that would now match a higher-precedence set (Rule's shortcuts); rule matching inside each set.",
+			"(R36.2) enforcement: an address keeps its limiter while it is used (every request refreshes its last-access time; shrink removes only addresses not accessed since the expiry); limiter and no-limit flag are updated together; Allow is x/time/rate's Limiter.Allow of the limiter the RateLimiter holds, or the no-limit flag when it holds none; the held limiter is built from exactly the (limit, burst) given, no-limit is set only for an infinite limit, and Rule builds / updates the RateLimiter from the selected rule's Limit and Burst; (R36.3) the cached limiter: the cache key covers the client id that rule selection reads, and a cached limiter of kind net/node/suffrage is handed back without re-selection only on a path that excluded every higher-precedence set (set not configured, or the request lacks what that set matches on) — violated today, known findings.",
+		NotDecided: "the window bound itself (x/time/rate); rule matching inside each set.",
 		Run:        runC36,
 	})
 }
@@ -199,4 +199,97 @@ func runC36(c *Ctx) {
 		c.Report(fn, "rule() is asked at two places (new, refresh)", fn.Pos(), len(sts) == 2, fmt.Sprintf("%d", len(sts)))
 		c.MP(fn, "a cached limiter is updated only if rule() reported a refresh", up, 1, GTrue("r.rule(addr, handler, hint, l.Type(), l.UpdatedAt())#4"))
 	}
+	// R36.3: the cached limiter ----------------------------------------------------------------
+	// One limiter is cached per (address, handler); rule selection also reads the request's hint.
+	c.Rule("R36.3", "Dependence")
+	if fn := c.Need("launch.(*addrPool).rateLimiter"); fn != nil {
+		var keys []string
+		for _, f := range WithClosures(fn) {
+			for _, in := range c.CallsD(f, "p.l.GetOrCreate(*)") {
+				keys = append(keys, c.D(CallArg(in, 0)))
+			}
+			for _, in := range c.CallsD(f, "i.Set(*)") {
+				keys = append(keys, c.D(CallArg(in, 0)))
+			}
+		}
+		if c.Floor(fn, "limiter cache keys", len(keys), 2) {
+			covers := false
+			for _, k := range keys {
+				if strings.Contains(k, "hint.ClientID") {
+					covers = true
+				}
+			}
+			c.Report(fn, "the limiter cache key covers the client id rule selection depends on", fn.Pos(), covers, "cache keys: "+strings.Join(keys, ", "))
+		}
+	}
+	rule := c.Need("launch.(*RateLimiterRules).Rule")
+	byNode := c.Need("launch.(*RateLimiterRules).ruleByNode")
+	if rule != nil && byNode != nil {
+		// shortcut exits: the cached limiter is handed back without consulting rule()
+		type shortcut struct {
+			fn *ssa.Function
+			in ssa.Instruction
+		}
+		var cands []shortcut
+		for _, r := range Returns(rule) {
+			if len(r.Results) == 2 && c.D(RetVal(r, 0)) == "l" {
+				if res := c.MustPass(rule, nil, []ssa.Instruction{r}, GCalled("r.rule(*)")); !allOK(res) {
+					cands = append(cands, shortcut{rule, r})
+				}
+			}
+		}
+		for _, r := range Returns(byNode) {
+			if len(r.Results) == 3 && c.D(RetVal(r, 2)) == "true" {
+				cands = append(cands, shortcut{byNode, r})
+			}
+		}
+		excl := map[string][]Gate{
+			"clientid": {GNil("r.clientid"), GCmp("hint.ClientID", "==", "\"\"")},
+			"nets":     {GNil("r.nets")},
+			"nodes":    {GNil("r.nodes"), GNil("φ(hint.Node|nil)"), GNil("hint.Node")},
+		}
+		excl["suffrage"] = []Gate{GNil("r.suffrage"), GNil("φ(hint.Node|nil)"), GNil("hint.Node")}
+		all4 := []string{"clientid", "nets", "nodes", "suffrage"}
+		higher := map[string][]string{"clientid": nil, "net": {"clientid"}, "node": {"clientid", "nets"}, "suffrage": {"clientid", "nets", "nodes"},
+			"defaultmap": all4, "default": all4}
+		callByNode := c.CallsD(rule, "r.ruleByNode(*)")
+		kinds := []string{"clientid", "net", "node", "suffrage", "defaultmap", "default"}
+		classified := map[ssa.Instruction]bool{}
+		for _, kind := range kinds {
+			var mine []shortcut
+			for _, sc := range cands {
+				if allOK(c.MustPass(sc.fn, nil, []ssa.Instruction{sc.in}, GCmp("l.Type()", "==", "\""+kind+"\""))) {
+					mine = append(mine, sc)
+					classified[sc.in] = true
+				}
+			}
+			if kind == "clientid" {
+				continue // the highest-precedence set; which client id the cached limiter belongs to is the cache-key obligation above
+			}
+			if len(mine) == 0 {
+				c.floors["R36.3 "+kind+" shortcuts (0 is fine: always re-selected)"] = [2]int{0, 0}
+				continue
+			}
+			var missing []string
+			for _, sc := range mine {
+				for _, h := range higher[kind] {
+					ok := allOK(c.MustPass(sc.fn, nil, []ssa.Instruction{sc.in}, excl[h]...))
+					if !ok && sc.fn == byNode && len(callByNode) > 0 {
+						ok = allOK(c.MustPass(rule, nil, callByNode, excl[h]...))
+					}
+					if !ok {
+						missing = append(missing, fmt.Sprintf("%s at %s", h, c.Pos(sc.in.Pos())))
+					}
+				}
+			}
+			c.Report(mine[0].fn, "a cached "+kind+" limiter is kept without re-selection only if no higher-precedence set can match the request", mine[0].in.Pos(),
+				len(missing) == 0, "not excluded: "+strings.Join(missing, "; "))
+		}
+		for _, sc := range cands {
+			if !classified[sc.in] {
+				c.Report(sc.fn, "a cached limiter is kept without re-selection only for a tested kind", sc.in.Pos(), false, "shortcut exit that does not test l.Type()")
+			}
+		}
+	}
+
 }
